@@ -51,6 +51,7 @@ type prim struct {
 	args    []int    // indices of the Go arguments that are passed on (others are dropped)
 	results []string // Go types of the results
 	world   bool     // takes and returns the world
+	reads   bool     // takes the world (last argument) and returns only its result: usable inside expressions
 }
 
 type field struct {
@@ -107,6 +108,14 @@ type area struct {
 	ints    map[string]bool        // further integer-like types (compared with =?)
 	pkgs    map[string]bool        // import names under which other files call the area's translated functions
 	mapget  map[string]string      // Go map type -> total index function (m[k], zero value on a miss): (get m k)
+	// stage 5 (analysis code): see stage5.go
+	wrecv   map[string]map[string]wfield   // receiver types whose whole state is the world (the receiver itself is erased): field -> access
+	stores  map[string]map[string]recField // pointer types that are LOCATIONS in the world: field -> (get p w) / (set p v w)
+	loads   map[string]string              // location type -> (load p w): the object as a value (for value-receiver methods)
+	nilmaps map[string]string              // map types: `m == nil` -> (coq m)
+	makes   map[string]string              // make(T) -> term
+	wmaps   map[string]string              // "<receiver type>.<field>": g.f[k] = v -> (coq k v w)
+	optOf   map[string]string              // nil-able variant of a location type: "*Field|nil" -> "*Field" (values are wrapped in Some)
 }
 
 type recField struct {
@@ -518,6 +527,7 @@ type translator struct {
 	idList []string
 	sigs  map[string]*signature // functions of the area translated so far
 	dir   string // directory of the file being translated
+	inner int    // > 0 while the body of a nested loop is translated
 	pkg   map[string][]*ast.File
 }
 
@@ -586,6 +596,7 @@ type signature struct {
 	results []string // Go types of the results (outs excluded)
 	nouts   int
 	ids     int // leading type-id parameters
+	recv    string // methods: the receiver's base type
 }
 
 // the translated function a call refers to: F(...) or pkg.F(...) for a package of the area
@@ -603,6 +614,14 @@ func (t *translator) sigOf(c *ast.CallExpr, ev *env) (string, *signature) {
 		if id, ok := f.X.(*ast.Ident); ok && t.a.pkgs[id.Name] && ev.index[id.Name] == nil {
 			if sg, isFn := t.sigs[f.Sel.Name]; isFn {
 				return f.Sel.Name, sg
+			}
+		}
+		// g.M(...) on the world-backed receiver: M was translated as a method of that type
+		if id, ok := f.X.(*ast.Ident); ok {
+			if v, isVar := ev.index[id.Name]; isVar && t.a.wrecv[v.typ] != nil {
+				if sg, isFn := t.sigs[f.Sel.Name]; isFn && sg.recv == strings.TrimPrefix(v.typ, "*") {
+					return f.Sel.Name, sg
+				}
 			}
 		}
 	}
@@ -801,6 +820,12 @@ func (t *translator) typeOf(e ast.Expr, ev *env) string {
 		if f, ok := t.a.records[xt][x.Sel.Name]; ok {
 			return f.typ
 		}
+		if f, ok := t.a.wrecv[xt][x.Sel.Name]; ok {
+			return f.typ
+		}
+		if f, ok := t.a.stores[xt][x.Sel.Name]; ok {
+			return f.typ
+		}
 		unsup(x, "field %s of type %s (not in the field table)", x.Sel.Name, xt)
 	case *ast.IndexExpr:
 		xt := t.typeOf(x.X, ev)
@@ -833,10 +858,16 @@ func (t *translator) typeOf(e ast.Expr, ev *env) string {
 		if id, ok := x.Fun.(*ast.Ident); ok && id.Name == "new" && len(x.Args) == 1 {
 			return "*" + typeString(x.Args[0])
 		}
+		if id, ok := x.Fun.(*ast.Ident); ok && id.Name == "make" && len(x.Args) == 1 {
+			return typeString(x.Args[0])
+		}
 		if ct := convTarget(x); ct != "" {
 			return ct
 		}
 		if _, sg := t.sigOf(x, ev); sg != nil && len(sg.results) == 1 {
+			return sg.results[0]
+		}
+		if _, sg := t.pureMethodSig(x, ev); sg != nil {
 			return sg.results[0]
 		}
 		if id, ok := x.Fun.(*ast.Ident); ok && id.Name == "any" && len(x.Args) == 1 {
@@ -938,6 +969,9 @@ func (t *translator) primOf(c *ast.CallExpr, ev *env) (prim, string) {
 		}
 	case *ast.Ident:
 		key = f.Name
+	}
+	if pk := t.pathKey(c.Fun, ev); pk != "" {
+		key = pk
 	}
 	p, ok := t.a.prims[key]
 	if !ok {
@@ -1066,6 +1100,12 @@ func (t *translator) pure(e ast.Expr, ev *env, want string) string {
 		if rf, isRec := t.a.records[xt][x.Sel.Name]; isRec {
 			return "(" + rf.get + " " + t.pure(x.X, ev, xt) + ")"
 		}
+		if wf, isW := t.a.wrecv[xt][x.Sel.Name]; isW {
+			return wf.get
+		}
+		if sf, isS := t.a.stores[xt][x.Sel.Name]; isS {
+			return "(" + sf.get + " " + t.pure(x.X, ev, xt) + " w)"
+		}
 		f, ok := t.a.fields[xt][x.Sel.Name]
 		if !ok {
 			unsup(x, "field %s of type %s", x.Sel.Name, xt)
@@ -1113,6 +1153,16 @@ func (t *translator) pure(e ast.Expr, ev *env, want string) string {
 				return call + ")"
 			}
 		}
+		if term, ok := t.pureMethodCall(x, ev); ok {
+			return term
+		}
+		if id, ok := x.Fun.(*ast.Ident); ok && id.Name == "make" && len(x.Args) == 1 {
+			term, known := t.a.makes[typeString(x.Args[0])]
+			if !known {
+				unsup(x, "make(%s)", typeString(x.Args[0]))
+			}
+			return term
+		}
 		if id, ok := x.Fun.(*ast.Ident); ok && id.Name == "new" && len(x.Args) == 1 {
 			term, known := t.a.news[typeString(x.Args[0])]
 			if !known {
@@ -1157,6 +1207,9 @@ func (t *translator) pure(e ast.Expr, ev *env, want string) string {
 		p, key := t.primOf(x, ev)
 		if p.world || len(p.results) != 1 {
 			unsup(x, "call of %s inside an expression", key)
+		}
+		if p.reads {
+			return "(" + p.coq + t.primArgs(x, p, ev) + " w)"
 		}
 		return "(" + p.coq + t.primArgs(x, p, ev) + ")"
 	}
@@ -1203,6 +1256,13 @@ func (t *translator) binary(x *ast.BinaryExpr, ev *env, sub func(ast.Expr, strin
 		}
 		if other != nil {
 			ot := t.typeOf(other, ev)
+			if nm, isMap := t.a.nilmaps[ot]; isMap {
+				s := "(" + nm + " " + sub(other, ot) + ")"
+				if x.Op == token.NEQ {
+					s = "(negb " + s + ")"
+				}
+				return s
+			}
 			if !t.a.ptrs[ot] {
 				unsup(x, "comparison of a %s with nil", ot)
 			}
@@ -1511,7 +1571,10 @@ func assigned(stmts []ast.Stmt, ev *env) []*variable {
 					}
 				case *ast.SelectorExpr:
 					if id, ok := lh.X.(*ast.Ident); ok {
-						set[id.Name] = true
+						// p.f = e on a location / on the world-backed receiver changes the world, not the variable
+						if v, isVar := ev.index[id.Name]; !(isVar && curArea != nil && (curArea.stores[v.typ] != nil || curArea.wrecv[v.typ] != nil)) {
+							set[id.Name] = true
+						}
 					}
 				case *ast.StarExpr:
 					if id, ok := lh.X.(*ast.Ident); ok {
@@ -1676,6 +1739,13 @@ func (t *translator) block(stmts []ast.Stmt, ev *env, lc *loopCtx, top bool, k f
 			}
 			return "(let " + arg.Name + " := " + cl.coq + " " + t.pure(c.Fun, ev, "") + " " + arg.Name + " in\n" + cont(ev) + ")"
 		}
+		if name, sg := t.sigOf(c, ev); sg != nil && !sg.pure {
+			lhs := make([]string, len(sg.results))
+			for i := range lhs {
+				lhs[i] = "_"
+			}
+			return t.callTranslated(&ast.AssignStmt{TokPos: c.Pos()}, c, name, sg, lhs, false, nil, ev, cont)
+		}
 		p, key := t.primOf(c, ev)
 		if !p.world {
 			unsup(c, "call of %s as a statement", key)
@@ -1736,8 +1806,8 @@ func (t *translator) block(stmts []ast.Stmt, ev *env, lc *loopCtx, top bool, k f
 				return "(if " + t.pure(x.Cond, ev, "bool") + "\n then " + thenT + "\n else " + elseT + ")"
 			}
 			jc := t.join()
-			return "(let " + jc + " := fun (c' : bool) => (if c' then " + thenT + " else " + elseT + ") in\n" +
-				t.exprK(x.Cond, ev, "bool", func(c string) string { return jc + " " + c }) + ")"
+			return "(let " + jc + " := fun (c' : bool) (w : " + t.worldT() + ") => (if c' then " + thenT + " else " + elseT + ") in\n" +
+				t.exprK(x.Cond, ev, "bool", func(c string) string { return jc + " " + c + " w" }) + ")"
 		}
 		if terminates(x.Body.List) && terminates(els) {
 			return mk(func(*env) string { return "(OutOfFuel, w)" /* unreachable */ })
@@ -1756,7 +1826,7 @@ func (t *translator) block(stmts []ast.Stmt, ev *env, lc *loopCtx, top bool, k f
 		return t.forStmt(x, rest, ev, k)
 	case *ast.RangeStmt:
 		if !top || lc != nil {
-			unsup(x, "loop that is not at the top level of the function body")
+			return t.innerRange(x, ev, cont)
 		}
 		return t.rangeStmt(x, rest, ev, k)
 	}
@@ -1786,6 +1856,9 @@ func (t *translator) panicStmt(c *ast.CallExpr, ev *env) string {
 }
 
 func (t *translator) returnStmt(x *ast.ReturnStmt, ev *env) string {
+	if t.inner > 0 {
+		unsup(x, "return inside a nested loop")
+	}
 	if len(x.Results) != len(t.ret) {
 		unsup(x, "return with %d values in a function with %d results", len(x.Results), len(t.ret))
 	}
@@ -1839,14 +1912,23 @@ func (t *translator) assign(x *ast.AssignStmt, ev *env, cont func(*env) string) 
 			if !isVar {
 				unsup(x, "assignment to %s.%s", id.Name, sel.Sel.Name)
 			}
+			if sf, isS := t.a.stores[v.typ][sel.Sel.Name]; isS {
+				return t.worldAssign(x, sf.set+" "+id.Name, sf.typ, ev, cont)
+			}
+			if wf, isW := t.a.wrecv[v.typ][sel.Sel.Name]; isW {
+				if wf.set == "" {
+					unsup(x, "assignment to %s.%s (read-only in the tables of area %s)", id.Name, sel.Sel.Name, t.a.name)
+				}
+				return t.worldAssign(x, wf.set, wf.typ, ev, cont)
+			}
 			rf, isRec := t.a.records[v.typ][sel.Sel.Name]
 			if !isRec {
 				unsup(x, "assignment to field %s of type %s (not in the record table)", sel.Sel.Name, v.typ)
 			}
 			j := t.join()
-			return "(let " + j + " := fun (" + id.Name + " : " + t.coqType(x, v.typ) + ") =>\n" + cont(ev) + " in\n" +
+			return "(let " + j + " := fun (" + id.Name + " : " + t.coqType(x, v.typ) + ") (w : " + t.worldT() + ") =>\n" + cont(ev) + " in\n" +
 				t.exprK(x.Rhs[0], ev, rf.typ, func(val string) string {
-					return j + " (" + rf.set + " " + val + " " + id.Name + ")"
+					return j + " (" + rf.set + " " + val + " " + id.Name + ") w"
 				}) + ")"
 		}
 	}
@@ -1889,6 +1971,16 @@ func (t *translator) assign(x *ast.AssignStmt, ev *env, cont func(*env) string) 
 	// G[k] = v  on a package-level map
 	if x.Tok == token.ASSIGN && len(x.Lhs) == 1 && len(x.Rhs) == 1 {
 		if ix, ok := x.Lhs[0].(*ast.IndexExpr); ok {
+			if pk := t.pathKey(ix.X, ev); pk != "" {
+				ins, known := t.a.wmaps[pk]
+				if !known {
+					unsup(ix, "assignment to an element of %s (not in the map table of area %s)", pk, t.a.name)
+				}
+				if t.mayPanic(ix.Index, ev) || t.mayPanic(x.Rhs[0], ev) {
+					unsup(x, "map assignment whose key or value can panic")
+				}
+				return "(let w := " + ins + " " + t.pure(ix.Index, ev, "") + " " + t.pure(x.Rhs[0], ev, "") + " w in\n" + cont(ev) + ")"
+			}
 			gid, isId := ix.X.(*ast.Ident)
 			if !isId {
 				unsup(ix, "assignment to an element of something that is not a variable")
@@ -2047,6 +2139,12 @@ func (t *translator) assign(x *ast.AssignStmt, ev *env, cont func(*env) string) 
 					isPureFn = true
 				}
 			}
+			if _, msg := t.pureMethodSig(c, ev); msg != nil {
+				isPureFn = true
+			}
+			if id, isId := c.Fun.(*ast.Ident); isId && id.Name == "make" {
+				isPureFn = true
+			}
 			argsPanic := false
 			for _, a := range c.Args {
 				if t.mayPanic(a, ev) {
@@ -2121,14 +2219,17 @@ func (t *translator) assign(x *ast.AssignStmt, ev *env, cont func(*env) string) 
 		return "(let " + name + " : " + t.coqType(x, typ) + " := " + term + " in\n" + cont(e2) + ")"
 	}
 	j := t.join()
-	return "(let " + j + " := fun (" + name + " : " + t.coqType(x, typ) + ") =>\n" + cont(e2) + " in\n" +
-		t.exprK(x.Rhs[0], ev, typ, func(s string) string { return j + " " + s }) + ")"
+	return "(let " + j + " := fun (" + name + " : " + t.coqType(x, typ) + ") (w : " + t.worldT() + ") =>\n" + cont(e2) + " in\n" +
+		t.exprK(x.Rhs[0], ev, typ, func(s string) string { return j + " " + s + " w" }) + ")"
 }
 
 // x := e where neither x nor anything e reads is ever assigned again
 func (t *translator) immutable(name string, e ast.Expr, ev *env) bool {
 	if t.reassigned[name] {
 		return false
+	}
+	if t.readsWorld(e, ev) {
+		return false // its value is the one at this point of the execution: keep the let
 	}
 	ok := true
 	ast.Inspect(e, func(n ast.Node) bool {
@@ -2591,8 +2692,8 @@ func (t *translator) fuelLoop(l *fuelLoop, carried []*variable, rest []ast.Stmt,
 			return "(if " + t.pure(l.condE, evBody, "bool") + "\n    then " + thenT + "\n    else " + callAfter(nil) + ")"
 		}
 		jc := t.join()
-		return "(let " + jc + " := fun (c' : bool) => (if c' then " + thenT + " else " + callAfter(nil) + ") in\n" +
-			t.exprK(l.condE, evBody, "bool", func(c string) string { return jc + " " + c }) + ")"
+		return "(let " + jc + " := fun (c' : bool) (w : " + t.worldT() + ") => (if c' then " + thenT + " else " + callAfter(nil) + ") in\n" +
+			t.exprK(l.condE, evBody, "bool", func(c string) string { return jc + " " + c + " w" }) + ")"
 	}
 	t.emit(loopName, "Fixpoint "+loopName+t.idParams()+t.params(fixed)+" (fuel : nat)"+cpar+t.params(carried)+" (w : "+t.worldT()+") {struct fuel}\n  : "+t.resType()+" :=\n"+
 		"  match fuel with\n"+
@@ -2862,7 +2963,7 @@ func (t *translator) function(fd *ast.FuncDecl, spec fnSpec) {
 	// a function that only tests and returns panic-free expressions is a plain Gallina function
 	if len(t.ret) == 1 && len(t.outs) == 0 && len(t.idList) == 0 && len(prefix) == 0 {
 		if term, ok := t.pureBody(body, ev); ok {
-			sg := &signature{pure: true, results: t.ret}
+			sg := &signature{pure: true, results: t.ret, recv: recvBase(fd)}
 			for _, p := range t.pars {
 				sg.params = append(sg.params, p.typ)
 			}
@@ -2916,7 +3017,7 @@ func (t *translator) function(fd *ast.FuncDecl, spec fnSpec) {
 		return "(OutOfFuel, w)" // unreachable: Go rejects a missing return
 	}
 	term := t.block(all, ev, nil, true, end)
-	sg := &signature{results: t.ret, nouts: len(t.outs), ids: len(t.idList)}
+	sg := &signature{results: t.ret, nouts: len(t.outs), ids: len(t.idList), recv: recvBase(fd)}
 	for _, p := range t.pars {
 		sg.params = append(sg.params, p.typ)
 	}
@@ -2996,6 +3097,7 @@ func main() {
 			}
 		}()
 		t := &translator{a: a}
+		curArea = a
 		var done []string
 		files := map[string]*ast.File{}
 		for _, fs := range a.funcs {
